@@ -239,6 +239,44 @@ claim(
 )
 
 
+# clauses added after the second round of seeded changes: (technique suffix, level-text suffix)
+ADDENDA = {
+    "C02": ("; layout-order rule on shape unpackings; configuration inheritance (shared with C18-b)",
+            " Also: the memory mode / arena cache size bounding the regions come from the selected section (h = C18-b); 4-element shape unpackings of the rewrites name dimensions in layout order (i)."),
+    "C03": ("; buffer-index agreement; producer-identity guard of the cascade interleaving",
+            " Also: weight buffer k is sized double_buffer_sizes[k]; the rows-present box of a cascade consumer grows only on stripes of its own producer's pass."),
+    "C04": ("; interpretation of RangeSet.intersects over all endpoint order types of short start-sorted lists; normalised SHRAM range extents; linear-form check of the first-job sub-kernel limit",
+            " Also: intersects() never answers False for an overlapping pair of lists of <= 2 (thorough <= 3) ranges, for every order type of the endpoints; the SHRAM write range covers every bank the path may use and the LUT read range is the LUT slot; the first job's input volume covers the whole dilated kernel."),
+    "C07": ("; encoder / decoder chunk-geometry expressions evaluated from the clang AST and compared as functions; conversion-flag rule; cache-key clause shared with C08-h",
+            " Also: max_symbols / z_unary_len / balance / z_enable agree as functions on both codec sides; the exported entry converts without FORCECAST; a cached stream is keyed by the block depth it was reordered for (g = C08-h)."),
+    "C08": ("; key-component provenance; slice-list / tensor pairing per block; empty stream for a core without range",
+            " Also (h-j): block_depth = min(requested, OFM depth read like the encoder reads it); every (re)definition of the chosen weight tensor is paired with the slice list it was encoded with; a present core without a range is programmed with length 0."),
+    "C09": ("; interpretation of round_away_zero on ties; guard of the simplified add/sub scaling; accessor agreement of the scale-record key",
+            " Also (d, e): rounding is half away from zero; the 8-bit equal-scale add/sub leaves the reference derivation only when (multiplier & 0xFFF) == 0; the scale-record cache key reads ifm / ofm scale with the accessors the derivation uses."),
+    "C10": ("; inferred local axes in create_padding; scan domain of the even-stripe decision",
+            " Also: create_padding compares width-axis quantities only; the even-stripe decision scans every op of the cascade (e)."),
+    "C11": ("; option-table naming against BuiltinOptions; slot-wise clone; CFG gate-per-rewrite",
+            " Also: an operator with a same-named option table is written with exactly that table; QuantizationParameters.clone copies slot for slot; the run_on_npu / rewrite_unsupported gate is re-evaluated before every single rewrite (f)."),
+    "C12": ("; variable-tensor live range; whole-list marker test; operand order vs the driver ABI",
+            " Also (e, f): variable tensors live from 0 to the end of the inference; outputs are never moved to fast storage; fixed operands are [command stream, flash, scratch, fast scratch]."),
+    "C13": ("; CFG-discriminated guards for optional dereferences in rewrites exposed to rejected operators and for single-argument max()/min(); None-tolerant report code; shift guard shared with C09-a",
+            " Also (g-j): rewrites that visit rejected operators never dereference an optional attribute unguarded; empty-sequence reductions are reached only under a discriminating test; the report tolerates absent operands; the shift handed to the packer is inside its asserted range."),
+    "C14": ("; NumPy arrays and attribute aliases in the state inventory; read-before-write analysis of module-level instances",
+            " Also: class-level arrays aliased into instances count as stores; module-level serializer objects carry no attribute from one use to the next (e)."),
+    "C15": ("; call-argument axis agreement over all modules; enum-key / index mirror in granule tables",
+            " Also: axis-named parameters receive values of their axis at every uniquely resolved call; granule tables read table[<their own key>]."),
+    "C16": ("; helper-semantics rules named by the constraint texts",
+            " Also (e): axis-indexed constraints normalise a negative axis; 'must match' is exact equality; an activation is folded only into an operator that runs on the NPU."),
+    "C17": ("; payload-to-tensor identity in npu_serialisation; statelessness of the module",
+            " Also (f, g): the command-stream tensor is exactly the payload (size and bytes); driver_actions keeps no state between calls."),
+    "C19": ("; probe interpretation of the integer helpers against the C definitions; table-function identity by name or by interpretation; injective LUT identity",
+            " Also: the doubling multiplies / rounding divide equal gemmlowp on sign x remainder-class probe grids (not over the whole domain); sigmoid / tanh / exp / sqrt tables are generated from the real function (1e-9 on probes); round_away_zero is half away from zero; the LUT equivalence id is keyed by the whole table."),
+}
+for _pid, (_t, _x) in ADDENDA.items():
+    _tech, _text, _note, _ref = CLAIMS[_pid]
+    CLAIMS[_pid] = (_tech + _t, _text + _x, _note, _ref)
+
+
 def build():
     checks = []
     for pid in sorted(CLAIMS):
